@@ -68,6 +68,7 @@ class Extract:
         self.unit, self.file, self.impl, self.fn, self.uline = unit, file, impl, fn, uline
         self.rename = None
         self.contract = []      # [(text, uline)]
+        self.attrs = []         # Verus attributes put in front of the fn (e.g. exec_allows_no_decreases_clause)
         self.signature = []     # replacement signature (generic/trait plumbing the verifier cannot read), logged as S5
         self.loops = {}         # n -> [(text, uline)]
         self.closures = {}      # n -> [(text, uline)]
@@ -169,6 +170,10 @@ class Extract:
             offs.append(o)
             o += len(bl) + 1
         for inj in self.injects:
+            if inj["where"] == "start":
+                ls = [Line(t, "unit", self.unit, ul, fnname, tag_of(t) or inj["tag"]) for t, ul in inj["lines"]]
+                ins.append((1, ls, 0))     # right after the opening brace of the body
+                continue
             hits = [i for i, bl in enumerate(body_lines) if norm(bl) == norm(inj["anchor"])]
             if inj["k"] is None:
                 if len(hits) != 1:
@@ -183,6 +188,8 @@ class Extract:
             ins.append((pos, ls, 0))
         # ----- assemble
         out = []
+        for at in self.attrs:
+            out.append(Line(at, "unit", self.unit, self.uline, fnname))
         out.append(Line(sig, "repo", self.file, first_line, fnname))
         for t, ul in self.contract:
             out.append(Line(t, "unit", self.unit, ul, fnname, tag_of(t)))
@@ -290,6 +297,8 @@ class ConstExtract:
             raise LostAnchor(f"const/type {self.name} in {self.file}: {len(ms)} matches")
         m = ms[0]
         text = re.sub(r"\bpub\([a-z: ]+\)\s+", "pub ", src[m.start():m.end()])
+        if not re.match(r"\s*pub\b", text):
+            text = "pub " + text.lstrip()    # S1: visibility dropped
         first = line_of(src, m.start())
         self.log = dict(file=self.file, const=self.name, lines=[first, line_of(src, m.end())], rewrites={"S1": 1})
         return [Line(l, "repo", self.file, first + k, self.name) for k, l in enumerate(text.split("\n"))]
@@ -349,6 +358,9 @@ def parse_unit(path):
                 section = None
             elif d.startswith("rename "):
                 cur.rename = d.split()[1]
+            elif d.startswith("attr "):
+                cur.attrs.append(d[5:].strip())
+                section = None
             elif d == "contract":
                 section = cur.contract
             elif d == "signature":
@@ -362,7 +374,13 @@ def parse_unit(path):
             elif d.startswith("closure "):
                 section = cur.closures.setdefault(int(d.split()[1]), [])
             elif d.startswith("inject "):
+                m0 = re.match(r"inject\s+(start)(?:\s*::\s*(.*))?$", d)
                 m = re.match(r"inject\s+(before|after)\s+(?:#(\d+)\s+)?`(.*)`(?:\s*::\s*(.*))?$", d)
+                if m0:
+                    inj = dict(where="start", k=None, anchor=None, tag=m0.group(2), lines=[])
+                    cur.injects.append(inj)
+                    section = inj["lines"]
+                    continue
                 if not m:
                     raise UnitError(f"{path}:{ln}: bad inject directive")
                 inj = dict(where=m.group(1), k=int(m.group(2)) if m.group(2) else None, anchor=m.group(3), tag=m.group(4), lines=[])
